@@ -15,12 +15,14 @@ import (
 // with the failure fields of the stores exercised: <openErr> = the Series() call itself fails,
 // r<k> = the Recv after k delivered frames fails, h<k> = it hangs until the frame timeout.
 //
+// and, one level up, q.select (c06q.go): the real querier over the real proxy over the same fake stores.
+//
 // oracle (limit 0): abort strategy + some queried store fails (or sends a warning) => the call fails;
 // warn strategy => the call succeeds, every failed store has at least one warning naming it, and every
 // series (with every chunk) delivered by the stores that did not fail is in the answer.
 
 func init() {
-	props = append(props, &hlib.Prop{ID: "C06", Gen: genC06, Exec: execC03})
+	props = append(props, &hlib.Prop{ID: "C06", Gen: genC06, Exec: execC06})
 }
 
 func oracleFailures(c *hlib.Ctx, rq *mergeReq, st string, resps []*storepb.SeriesResponse) {
@@ -115,9 +117,28 @@ func oracleFailures(c *hlib.Ctx, rq *mergeReq, st string, resps []*storepb.Serie
 	}
 }
 
+func execC06(c *hlib.Ctx, tok []string) string {
+	if len(tok) > 0 && tok[0] == "q.select" {
+		return execSelect(c, tok)
+	}
+	return execC03(c, tok)
+}
+
 func genC06(c *hlib.Ctx) {
 	n := c.N(700, 8000)
 	for i := 0; i < n; i++ {
 		c.Do(genMergeCase(c, 35, false), true)
+	}
+	// the same through the querier; a good share of the cases has an answer without any series
+	n = c.N(400, 6000)
+	for i := 0; i < n; i++ {
+		o := mergeGenOpt{failPct: 40}
+		switch c.R.Intn(4) {
+		case 0:
+			o.barrenPct = 100
+		case 1:
+			o.earlyFail, o.failPct = true, 70
+		}
+		c.Do(genSelectCase(c, o), true)
 	}
 }
